@@ -702,6 +702,31 @@ func OrdSortMap(p *load.Program) *report.RuleResult {
 			}
 		}
 	}
+	// or through a constructor: a module function that stores one of its
+	// parameters into Encoder.opts, called here with a constant that has the bit
+	if !found {
+		for _, b := range mt.Blocks {
+			for _, in := range b.Instrs {
+				c, ok := in.(ssa.CallInstruction)
+				if !ok {
+					continue
+				}
+				callee := c.Common().StaticCallee()
+				if callee == nil || !p.InModule(callee) {
+					continue
+				}
+				for ai, a := range c.Common().Args {
+					v, ok := ssau.ConstInt(a)
+					if !ok || v&bit == 0 {
+						continue
+					}
+					if paramReachesEncoderOpts(p, callee, ai, 0) {
+						found = true
+					}
+				}
+			}
+		}
+	}
 	if found {
 		r.OK(p.FuncName(mt), p.Pos(mt.Pos()), "Encoder options", "EncodeSortMaps set")
 	} else {
@@ -946,4 +971,36 @@ func stackFieldTypes(p *load.Program) map[string]string {
 	}
 	stackFieldCache[p] = m
 	return m
+}
+
+// paramReachesEncoderOpts: parameter pi of f is stored into Encoder.opts, in f
+// or in a module function f hands it to.
+func paramReachesEncoderOpts(p *load.Program, f *ssa.Function, pi, depth int) bool {
+	if depth > 3 || pi >= len(f.Params) {
+		return false
+	}
+	prm := f.Params[pi]
+	for _, b := range f.Blocks {
+		for _, in := range b.Instrs {
+			switch x := in.(type) {
+			case *ssa.Store:
+				if x.Val == ssa.Value(prm) {
+					if tn, fl, ok := ssau.FieldOf(x.Addr); ok && tn == "Encoder" && fl == "opts" {
+						return true
+					}
+				}
+			case ssa.CallInstruction:
+				callee := x.Common().StaticCallee()
+				if callee == nil || !p.InModule(callee) {
+					continue
+				}
+				for ai, a := range x.Common().Args {
+					if a == ssa.Value(prm) && paramReachesEncoderOpts(p, callee, ai, depth+1) {
+						return true
+					}
+				}
+			}
+		}
+	}
+	return false
 }
